@@ -359,3 +359,33 @@ pub fn step(u: &Universe, pre: &Obs, op: Op, inc: &Incoming) -> RefStep {
     r.post = l;
     r
 }
+
+
+/// The reference's own state after a whole history (not re-synchronised with
+/// what the implementation reports): contents in the order of last access,
+/// and the limit. Serials are not tracked (0). None if the history contains
+/// steps the reference does not define (fault injection).
+pub fn replay(u: &Universe, start: (Vec<RE>, usize), hist: &[Op]) -> Option<(Vec<RE>, usize)> {
+    let (mut l, mut limit) = start;
+    for &op in hist {
+        if matches!(op, Op::ArmFuel { .. } | Op::DrainForget { .. }) {
+            return None;
+        }
+        let obs = Obs {
+            limit,
+            cap: 0,
+            len: l.len(),
+            cur: l.iter().map(|x| x.size(u.e)).sum(),
+            is_empty: l.is_empty(),
+            entries: l
+                .iter()
+                .map(|x| crate::state::EObs { id: x.id, kheap: x.kheap, kserial: x.kserial, vheap: x.vheap, vserial: x.vserial, kaddr: 0, vaddr: 0 })
+                .collect(),
+            overrun: false,
+        };
+        let r = step(u, &obs, op, &Incoming { kserial: 0, vserial: 0 });
+        l = r.post;
+        limit = r.limit;
+    }
+    Some((l, limit))
+}
